@@ -10,7 +10,7 @@ cases run in parallel and the wall time of the harness is that of the longest ca
 (quick: one retry budget of 5 failures = 31 s of pauses, plus the allowance the monitor
 gives before it says "does not heal": ~47 s on a tree that does not heal, ~35 s on one that does).
 """
-import glob, json, os, re
+import glob, json, os, re, time
 import vflib as L
 import casecheck
 from casecheck import Spec
@@ -279,6 +279,15 @@ def main(argv):
         with open(path, "w") as fh:
             json.dump({"Replace": rep}, fh)
 
+    orig_enter = L.Lock.__enter__
+
+    def enter(self):   # checks serialise on /verif/.lock: say how long this one queued (evidence wall_s includes it)
+        t = time.time()
+        r = orig_enter(self)
+        L.log("[lock] waited %.1fs for /verif/.lock" % (time.time() - t))
+        return r
+
+    L.Lock.__enter__ = enter
     L.eval_shards = eval_shards
     L.write_overlay = write_overlay
     return casecheck.main(SPEC, argv)
